@@ -1,10 +1,11 @@
 #!/bin/sh
-# usage: tools/soak.sh <first_seed> <last_seed> [tier]   -- runs every check under several seeds, prints anything but clean passes
+# usage: tools/soak.sh <first_seed> <last_seed> [tier]   -- runs every check (or those in $SOAK_CHECKS, in that order) under
+# several seeds, prints anything but clean passes
 cd "$(dirname "$0")/.." || exit 2
 tier=${3:-quick}
 bad=0
 for seed in $(seq "$1" "$2"); do
-  for p in C01 C02 C03 C04 C05 C06 C07 C08 C09 C10 C11 C12 C13 C14 C15 C16 C17 C18 C19 C20; do
+  for p in ${SOAK_CHECKS:-C01 C02 C03 C04 C05 C06 C07 C08 C09 C10 C11 C12 C13 C14 C15 C16 C17 C18 C19 C20}; do
     out=$(VERIF_SEED=$seed ./check $p $tier 2>&1); rc=$?
     if [ $rc -ne 0 ] || echo "$out" | grep -q "VIOLATION\|HARNESS-ERROR"; then
       bad=$((bad+1)); echo "=== seed=$seed $p rc=$rc"; echo "$out" | grep -v "^KNOWN-FINDING" | cut -c1-600 | head -8
